@@ -8,6 +8,17 @@ ROOT = os.path.dirname(os.path.dirname(os.path.abspath(__file__)))
 props = [json.loads(l) for l in open(os.path.join(ROOT, "properties.jsonl"))]
 
 CHECKS = {
+    "C10": dict(
+        text="Repo.tla with two command processes (TLC, every interleaving of storage steps of 1 backup || 1 non-instant prune "
+             "plus a trailing prune; and backup || backup) proves AllRecoverable in every state and AllReadable after a prune "
+             "that overlapped with nothing, under assumption A2. On the real code every gate position k of command A (and sampled "
+             "(k, j) pairs) is realised with a gating back end on one shared store, after pre-histories taken from Hist.tla; the "
+             "merged operation log is validated by RepoTrace.tla at every step and the real check/restore after each command.",
+        note="A2: no logical time passes inside a prune (ticks only between commands); keep-delete (1 h) far exceeds the backups' "
+             "durations. The timing window described in DESIGN.md (plan timestamp taken after the reads) is outside A2 and is "
+             "documented by MCRepoConcNoA2.cfg, not raised by the check.",
+        technique="TLC model of two interleaved command processes + gated schedules replayed on the real code + TLC trace validation of the merged log",
+        design="4/C10"),
     "C06": dict(
         text="Chunker.tla defines CutLen/Chunks; MCChunker.tla shows with TLC that the iterator's buffer algorithm refines it for "
              "every stream <= 7 bytes, hit set, (min,max) and read fragmentation (and that the pre-fix carry behaviour does not). "
